@@ -75,6 +75,7 @@ type Driver struct {
 	StepBudget int
 
 	MaxLive      int
+	TimerJumps   int
 	Preemptions  int
 	Deadlock     string
 	Livelock     bool
@@ -227,6 +228,15 @@ func (d *Driver) pick(run []*simrt.Task, clientIdle bool) *simrt.Task {
 	return run[d.C.Choose("task", len(run))]
 }
 
+// fireTimers turns every due timer into a task; it returns how many fired.
+func (d *Driver) fireTimers() int {
+	due := d.Env.Clock.TakeDue()
+	for _, fn := range due {
+		simrt.Go("timer", fn)
+	}
+	return len(due)
+}
+
 // anyBlocked reports whether some task is parked on a lock it could not get.
 func (d *Driver) anyBlocked() bool {
 	for _, t := range d.S.Tasks {
@@ -241,6 +251,15 @@ func (d *Driver) anyBlocked() bool {
 
 // StepOne runs one scheduler step; false when nothing is runnable.
 func (d *Driver) StepOne(clientIdle bool) bool {
+	// timers (none in the repository today; a change may add time.AfterFunc):
+	// between two steps time may pass up to the next timer, and due timers
+	// become tasks
+	if at, ok := d.Env.Clock.NextTimer(); ok {
+		if at > d.Env.Clock.Nanos && d.C.Choose("time-passes", 4) == 0 {
+			d.Env.Clock.Nanos = at
+		}
+		d.fireTimers()
+	}
 	run := d.S.RunnableTasks()
 	if d.Policy == PolDispOnly || d.Policy == PolBgFirstExcept {
 		var keep []*simrt.Task
@@ -252,6 +271,16 @@ func (d *Driver) StepOne(clientIdle bool) bool {
 		run = keep
 	}
 	if len(run) == 0 {
+		// nothing can run: jump the clock to the next timer, if any
+		if at, ok := d.Env.Clock.NextTimer(); ok && d.Policy != PolDispOnly {
+			if at > d.Env.Clock.Nanos {
+				d.Env.Clock.Nanos = at
+			}
+			if d.fireTimers() > 0 {
+				d.TimerJumps++
+				return true
+			}
+		}
 		return false
 	}
 	live := 0
